@@ -108,7 +108,8 @@ def httpTime (parse : Str → Option Int) (h : Header) (name : Str) : Option Int
 
 /-- §4.2.3 -/
 def currentAge (parse : Str → Option Int) (s : Stored) (now : Int) : Int :=
-  let ageValue := (deltaSeconds (Header.get s.header sAge)).getD 0
+  -- RFC 9111 §5.1: of a list-based Age value the first member is used; if that is not delta-seconds the field is ignored
+  let ageValue := (deltaSeconds (firstListMember (Header.values s.header sAge))).getD 0
   let apparentAge := match httpTime parse s.header sDate with
     | some d => max 0 (sat (s.responseTime - d))
     | none => maxI64   -- no usable Date: nothing bounds the age from above
